@@ -35,6 +35,13 @@ func leavesC04() []*qast.Node {
 		ls = append(ls, qast.Lf(qast.Leaf{Kind: qast.LRange, Field: "n", Lo: qast.I("1"), Hi: qast.F("2.5"), Incl: incl}))
 		ls = append(ls, qast.Lf(qast.Leaf{Kind: qast.LRange, Field: "n", Lo: qast.F("0.5"), Hi: qast.I("3"), Incl: incl}))
 	}
+	// integer-valued decimals (kind float64 must survive) and a float beyond int64
+	for _, v := range []string{"5.0", "1e3", "1e20"} {
+		ls = append(ls, qast.Lf(qast.Leaf{Kind: qast.LEq, Field: "n", Val: qast.F(v)}))
+	}
+	ls = append(ls, qast.Lf(qast.Leaf{Kind: qast.LGe, Field: "n", Val: qast.F("7.0")}))
+	ls = append(ls, qast.Lf(qast.Leaf{Kind: qast.LRange, Field: "n", Lo: qast.F("1.0"), Hi: qast.F("2.5"), Incl: true}))
+	ls = append(ls, qast.Lf(qast.Leaf{Kind: qast.LList, Field: "n", List: []qast.Value{qast.F("2.0"), qast.I("3")}}))
 	// patterns touching the regexp delimiters
 	for _, p := range []string{`b*\/`, `\/b*`, `\/b?\/c`, `a\/*\/`} {
 		ls = append(ls, qast.Lf(qast.Leaf{Kind: qast.LEq, Field: "s", Val: qast.Wi(p)}))
